@@ -86,7 +86,7 @@ def gen_cases(ctx):
             d.update(hash=hn, proofs=2, shape="corpus")
             d.setdefault("atomic", False)
             cases.append(d)
-    n_toy, n_sha = (28, 10) if quick else (1000, 300)
+    n_toy, n_sha = (44, 16) if quick else (1000, 300)
     for i in range(n_toy + n_sha):
         hn = "toy" if i < n_toy else "sha"
         c = tg.rand_case(rng, hn, nkeys=rng.choice([1, 2, 3, 4, 5, 6, 8]), nbatches=rng.choice([1, 2, 3, 4]),
@@ -390,7 +390,7 @@ def run(ctx):
             ctx.cov["kernel_evaluated_proofs"] = len(ksample)
     mark("model proofs (driver + kernel sample)")
     # ---- corrupted proofs through the real verifiers and the model verifiers
-    budget = 1800 if ctx.tier == "quick" else 100000
+    budget = 3000 if ctx.tier == "quick" else 100000
     queries = []    # (label, query, claim, truth-map)
     rng.shuffle(honest)
     for n, (ci, p) in enumerate(honest):
